@@ -181,6 +181,17 @@ type driver struct {
 	its   []iterT
 	mod   *model
 	nextV int
+	step  int // index of the current operation (for messages)
+	obs   bool
+}
+
+// where names the current step; built only when a violation is reported.
+func (d *driver) where() string {
+	w := fmt.Sprintf("step %d %s", d.step, d.k.Ops[d.step])
+	if d.obs {
+		w += " [observers]"
+	}
+	return w
 }
 
 func guard(f func()) (pan any) {
@@ -225,24 +236,24 @@ func structClass(err error) string {
 }
 
 // hook runs the structural check after the call named opName.
-func (d *driver) hook(opName, where string) *vio {
+func (d *driver) hook(opName string) *vio {
 	if d.k.NoHook {
 		return nil
 	}
 	var nodes, deleted, refSum int
 	var err error
 	if pan := guard(func() { nodes, deleted, refSum, err = d.m.VerifWalk() }); pan != nil {
-		return &vio{"omap/" + opName + "/structure:walk-panic", fmt.Sprintf("%s: structural walk panicked: %v", where, pan)}
+		return &vio{"omap/" + opName + "/structure:walk-panic", fmt.Sprintf("%s: structural walk panicked: %v", d.where(), pan)}
 	}
 	if err != nil {
-		return &vio{"omap/" + opName + "/structure:" + structClass(err), fmt.Sprintf("%s: list inconsistent after the call: %v (nodes=%d deleted=%d refSum=%d, open iterators=%d, live=%d)", where, err, nodes, deleted, refSum, d.mod.nopen, len(d.mod.live))}
+		return &vio{"omap/" + opName + "/structure:" + structClass(err), fmt.Sprintf("%s: list inconsistent after the call: %v (nodes=%d deleted=%d refSum=%d, open iterators=%d, live=%d)", d.where(), err, nodes, deleted, refSum, d.mod.nopen, len(d.mod.live))}
 	}
 	if refSum != d.mod.nopen {
 		kind := "refsum-high"
 		if refSum < d.mod.nopen {
 			kind = "refsum-low"
 		}
-		return &vio{"omap/" + opName + "/" + kind, fmt.Sprintf("%s: sum of reference counts %d but %d iterators are open", where, refSum, d.mod.nopen)}
+		return &vio{"omap/" + opName + "/" + kind, fmt.Sprintf("%s: sum of reference counts %d but %d iterators are open", d.where(), refSum, d.mod.nopen)}
 	}
 	return nil
 }
@@ -284,7 +295,7 @@ func (d *driver) legal(o op) bool {
 }
 
 // apply performs one operation on the real map and the model and compares.
-func (d *driver) apply(o op, where string) *vio {
+func (d *driver) apply(o op) *vio {
 	name := opNames[o.K]
 	mod := d.mod
 	switch o.K {
@@ -293,16 +304,16 @@ func (d *driver) apply(o op, where string) *vio {
 		v := 100 + d.nextV
 		var err error
 		if pan := guard(func() { err = d.m.Add(o.A, v) }); pan != nil {
-			return &vio{"omap/Add/panic", fmt.Sprintf("%s: panic: %v", where, pan)}
+			return &vio{"omap/Add/panic", fmt.Sprintf("%s: panic: %v", d.where(), pan)}
 		}
 		if mod.bykey[o.A] >= 0 {
 			name = "Add-existing"
 			if err == nil {
-				return &vio{"omap/Add-existing/no-error", fmt.Sprintf("%s: key is present but Add returned nil", where)}
+				return &vio{"omap/Add-existing/no-error", fmt.Sprintf("%s: key is present but Add returned nil", d.where())}
 			}
 		} else {
 			if err != nil {
-				return &vio{"omap/Add/spurious-error", fmt.Sprintf("%s: key is absent but Add returned %v", where, err)}
+				return &vio{"omap/Add/spurious-error", fmt.Sprintf("%s: key is absent but Add returned %v", d.where(), err)}
 			}
 			mod.add(o.A, v)
 		}
@@ -311,16 +322,16 @@ func (d *driver) apply(o op, where string) *vio {
 			name = "Remove-absent"
 		}
 		if pan := guard(func() { d.m.Remove(o.A) }); pan != nil {
-			return &vio{"omap/" + name + "/panic", fmt.Sprintf("%s: panic: %v", where, pan)}
+			return &vio{"omap/" + name + "/panic", fmt.Sprintf("%s: panic: %v", d.where(), pan)}
 		}
 		mod.remove(o.A)
 	case opNewIt:
 		var it iterT
 		if pan := guard(func() { it = d.m.Iterator() }); pan != nil {
-			return &vio{"omap/NewIterator/panic", fmt.Sprintf("%s: panic: %v", where, pan)}
+			return &vio{"omap/NewIterator/panic", fmt.Sprintf("%s: panic: %v", d.where(), pan)}
 		}
 		if it == nil {
-			return &vio{"omap/NewIterator/nil", fmt.Sprintf("%s: Iterator() returned nil", where)}
+			return &vio{"omap/NewIterator/nil", fmt.Sprintf("%s: Iterator() returned nil", d.where())}
 		}
 		d.its[o.A] = it
 		mod.pos[o.A] = mod.start()
@@ -328,7 +339,7 @@ func (d *driver) apply(o op, where string) *vio {
 	case opHasNext:
 		var got bool
 		if pan := guard(func() { got = d.its[o.A].HasNext() }); pan != nil {
-			return &vio{"omap/HasNext/panic", fmt.Sprintf("%s: panic: %v", where, pan)}
+			return &vio{"omap/HasNext/panic", fmt.Sprintf("%s: panic: %v", d.where(), pan)}
 		}
 		want := mod.firstLive(mod.pos[o.A]) >= 0
 		if got != want {
@@ -336,30 +347,30 @@ func (d *driver) apply(o op, where string) *vio {
 			if want {
 				kind = "false-before-live-entry"
 			}
-			return &vio{"omap/HasNext/" + kind, fmt.Sprintf("%s: HasNext()=%v but the model has %d live entries at or after the iterator's position", where, got, d.ahead(o.A))}
+			return &vio{"omap/HasNext/" + kind, fmt.Sprintf("%s: HasNext()=%v but the model has %d live entries at or after the iterator's position", d.where(), got, d.ahead(o.A))}
 		}
 		mod.pos[o.A] = mod.settle(mod.pos[o.A])
 	case opNext:
 		var e iterable.MapEntry[int, int]
 		var ok bool
 		if pan := guard(func() { e, ok = d.its[o.A].Next() }); pan != nil {
-			return &vio{"omap/Next/panic", fmt.Sprintf("%s: panic: %v", where, pan)}
+			return &vio{"omap/Next/panic", fmt.Sprintf("%s: panic: %v", d.where(), pan)}
 		}
 		p := mod.pos[o.A]
 		s := mod.firstLive(p)
 		switch {
 		case s < 0 && ok:
-			return &vio{"omap/Next/phantom:" + d.describe(e.Key, e.Value, p, -1), fmt.Sprintf("%s: Next() returned (%s,%d,true) but no live entry is at or after the iterator's position", where, showKey(e.Key), e.Value)}
+			return &vio{"omap/Next/phantom:" + d.describe(e.Key, e.Value, p, -1), fmt.Sprintf("%s: Next() returned (%s,%d,true) but no live entry is at or after the iterator's position", d.where(), showKey(e.Key), e.Value)}
 		case s >= 0 && !ok:
 			w := mod.hist[s]
-			return &vio{"omap/Next/missed-entry", fmt.Sprintf("%s: Next() returned ok=false but live entry (%s,%d) is at or after the iterator's position", where, keyName(w.key), w.val)}
+			return &vio{"omap/Next/missed-entry", fmt.Sprintf("%s: Next() returned ok=false but live entry (%s,%d) is at or after the iterator's position", d.where(), keyName(w.key), w.val)}
 		case s >= 0:
 			w := mod.hist[s]
 			if e.Key != w.key {
-				return &vio{"omap/Next/" + d.describe(e.Key, e.Value, p, s), fmt.Sprintf("%s: Next() returned (%s,%d) want (%s,%d)", where, showKey(e.Key), e.Value, keyName(w.key), w.val)}
+				return &vio{"omap/Next/" + d.describe(e.Key, e.Value, p, s), fmt.Sprintf("%s: Next() returned (%s,%d) want (%s,%d)", d.where(), showKey(e.Key), e.Value, keyName(w.key), w.val)}
 			}
 			if e.Value != w.val {
-				return &vio{"omap/Next/wrong-value", fmt.Sprintf("%s: Next() returned (%s,%d) want (%s,%d)", where, showKey(e.Key), e.Value, keyName(w.key), w.val)}
+				return &vio{"omap/Next/wrong-value", fmt.Sprintf("%s: Next() returned (%s,%d) want (%s,%d)", d.where(), showKey(e.Key), e.Value, keyName(w.key), w.val)}
 			}
 			mod.pos[o.A] = mod.settle(s + 1)
 		default:
@@ -371,18 +382,18 @@ func (d *driver) apply(o op, where string) *vio {
 		mod.pos[o.A] = -1
 		mod.nopen--
 		if pan := guard(func() { _ = it.Close() }); pan != nil {
-			return &vio{"omap/Close/panic", fmt.Sprintf("%s: panic: %v", where, pan)}
+			return &vio{"omap/Close/panic", fmt.Sprintf("%s: panic: %v", d.where(), pan)}
 		}
 	case opGet:
-		return d.checkGet(o.A, where)
+		return d.checkGet(o.A)
 	case opLen:
-		return d.checkLen(where)
+		return d.checkLen()
 	case opFirst:
-		if v := d.checkFirst(where); v != nil {
+		if v := d.checkFirst(); v != nil {
 			return v
 		}
 	}
-	return d.hook(name, where)
+	return d.hook(name)
 }
 
 func showKey(k int) string {
@@ -402,89 +413,90 @@ func (d *driver) ahead(slot int) int {
 	return n
 }
 
-func (d *driver) checkGet(k int, where string) *vio {
+func (d *driver) checkGet(k int) *vio {
 	var got int
 	var ok bool
 	if pan := guard(func() { got, ok = d.m.Get(k) }); pan != nil {
-		return &vio{"omap/Get/panic", fmt.Sprintf("%s: Get(%s) panic: %v", where, keyName(k), pan)}
+		return &vio{"omap/Get/panic", fmt.Sprintf("%s: Get(%s) panic: %v", d.where(), keyName(k), pan)}
 	}
 	s := d.mod.bykey[k]
 	switch {
 	case s < 0 && ok:
-		return &vio{"omap/Get/phantom", fmt.Sprintf("%s: Get(%s)=(%d,true) but the key is not live", where, keyName(k), got)}
+		return &vio{"omap/Get/phantom", fmt.Sprintf("%s: Get(%s)=(%d,true) but the key is not live", d.where(), keyName(k), got)}
 	case s >= 0 && !ok:
-		return &vio{"omap/Get/missing", fmt.Sprintf("%s: Get(%s) not found but the key is live with value %d", where, keyName(k), d.mod.hist[s].val)}
+		return &vio{"omap/Get/missing", fmt.Sprintf("%s: Get(%s) not found but the key is live with value %d", d.where(), keyName(k), d.mod.hist[s].val)}
 	case s >= 0 && got != d.mod.hist[s].val:
-		return &vio{"omap/Get/wrong-value", fmt.Sprintf("%s: Get(%s)=%d want %d", where, keyName(k), got, d.mod.hist[s].val)}
+		return &vio{"omap/Get/wrong-value", fmt.Sprintf("%s: Get(%s)=%d want %d", d.where(), keyName(k), got, d.mod.hist[s].val)}
 	}
 	return nil
 }
 
-func (d *driver) checkLen(where string) *vio {
+func (d *driver) checkLen() *vio {
 	var l int
 	if pan := guard(func() { l = d.m.Len() }); pan != nil {
-		return &vio{"omap/Len/panic", fmt.Sprintf("%s: Len() panic: %v", where, pan)}
+		return &vio{"omap/Len/panic", fmt.Sprintf("%s: Len() panic: %v", d.where(), pan)}
 	}
 	if l != len(d.mod.live) {
-		return &vio{"omap/Len/wrong", fmt.Sprintf("%s: Len()=%d want %d", where, l, len(d.mod.live))}
+		return &vio{"omap/Len/wrong", fmt.Sprintf("%s: Len()=%d want %d", d.where(), l, len(d.mod.live))}
 	}
 	return nil
 }
 
-func (d *driver) checkFirst(where string) *vio {
+func (d *driver) checkFirst() *vio {
 	var k int
 	var ok bool
 	if pan := guard(func() { k, ok = d.m.First() }); pan != nil {
-		return &vio{"omap/First/panic", fmt.Sprintf("%s: First() panic: %v", where, pan)}
+		return &vio{"omap/First/panic", fmt.Sprintf("%s: First() panic: %v", d.where(), pan)}
 	}
 	switch {
 	case len(d.mod.live) == 0 && ok:
-		return &vio{"omap/First/phantom", fmt.Sprintf("%s: First()=(%s,true) on a map without live entries", where, showKey(k))}
+		return &vio{"omap/First/phantom", fmt.Sprintf("%s: First()=(%s,true) on a map without live entries", d.where(), showKey(k))}
 	case len(d.mod.live) > 0 && !ok:
-		return &vio{"omap/First/missed-entry", fmt.Sprintf("%s: First() found nothing but %d entries are live, oldest %s", where, len(d.mod.live), keyName(d.mod.hist[d.mod.live[0]].key))}
+		return &vio{"omap/First/missed-entry", fmt.Sprintf("%s: First() found nothing but %d entries are live, oldest %s", d.where(), len(d.mod.live), keyName(d.mod.hist[d.mod.live[0]].key))}
 	case len(d.mod.live) > 0 && k != d.mod.hist[d.mod.live[0]].key:
-		return &vio{"omap/First/wrong-key", fmt.Sprintf("%s: First()=%s want the oldest live key %s", where, showKey(k), keyName(d.mod.hist[d.mod.live[0]].key))}
+		return &vio{"omap/First/wrong-key", fmt.Sprintf("%s: First()=%s want the oldest live key %s", d.where(), showKey(k), keyName(d.mod.hist[d.mod.live[0]].key))}
 	}
 	return nil
 }
 
 // probe is the observer block: calls that must not change anything and must reflect exactly the live
 // keys. Add on a present key and Remove on an absent key are part of it (they must be no-ops).
-func (d *driver) probe(where string) *vio {
-	where += " [observers]"
+func (d *driver) probe() *vio {
+	d.obs = true
+	defer func() { d.obs = false }()
 	for k := 1; k <= d.k.Keys; k++ {
 		if d.mod.bykey[k] >= 0 {
 			var err error
 			if pan := guard(func() { err = d.m.Add(k, -1) }); pan != nil {
-				return &vio{"omap/Add-existing/panic", fmt.Sprintf("%s: Add(%s) on a present key: panic: %v", where, keyName(k), pan)}
+				return &vio{"omap/Add-existing/panic", fmt.Sprintf("%s: Add(%s) on a present key: panic: %v", d.where(), keyName(k), pan)}
 			}
 			if err == nil {
-				return &vio{"omap/Add-existing/no-error", fmt.Sprintf("%s: Add(%s) on a present key returned nil", where, keyName(k))}
+				return &vio{"omap/Add-existing/no-error", fmt.Sprintf("%s: Add(%s) on a present key returned nil", d.where(), keyName(k))}
 			}
-			if v := d.hook("Add-existing", where); v != nil {
+			if v := d.hook("Add-existing"); v != nil {
 				return v
 			}
 		} else {
 			if pan := guard(func() { d.m.Remove(k) }); pan != nil {
-				return &vio{"omap/Remove-absent/panic", fmt.Sprintf("%s: Remove(%s) on an absent key: panic: %v", where, keyName(k), pan)}
+				return &vio{"omap/Remove-absent/panic", fmt.Sprintf("%s: Remove(%s) on an absent key: panic: %v", d.where(), keyName(k), pan)}
 			}
-			if v := d.hook("Remove-absent", where); v != nil {
+			if v := d.hook("Remove-absent"); v != nil {
 				return v
 			}
 		}
 	}
-	if v := d.checkLen(where); v != nil {
+	if v := d.checkLen(); v != nil {
 		return v
 	}
 	for k := 1; k <= d.k.Keys; k++ {
-		if v := d.checkGet(k, where); v != nil {
+		if v := d.checkGet(k); v != nil {
 			return v
 		}
 	}
-	if v := d.checkFirst(where); v != nil {
+	if v := d.checkFirst(); v != nil {
 		return v
 	}
-	return d.hook("First", where)
+	return d.hook("First")
 }
 
 // stateHash is the abstract model state: the sequence of list points (live entry / removed entry
@@ -556,18 +568,18 @@ func runCase(k kase, visit func(h uint64, s string), visitAll bool) (v *vio, ill
 		if !d.legal(o) {
 			return nil, true
 		}
-		where := fmt.Sprintf("step %d %s", i, o)
+		d.step = i
 		last := i == len(k.Ops)-1
 		var h uint64
 		var hs string
 		if visit != nil && (last || visitAll) {
 			h, hs = d.stateHash(o)
 		}
-		if v := d.apply(o, where); v != nil {
+		if v := d.apply(o); v != nil {
 			return v, false
 		}
 		if k.Probe == probeAll || last {
-			if v := d.probe(where); v != nil {
+			if v := d.probe(); v != nil {
 				return v, false
 			}
 		}
